@@ -766,7 +766,12 @@ impl<T, R: Recognizer<Target = T>> Recognizer for VecRecognizer<T, R> {
     }
 
     fn reset(&mut self) {
-        self.stage = BodyStage::Init;
+        // The body of an attribute has no opening event of its own (see `new`).
+        self.stage = if self.is_attr_body {
+            BodyStage::Between
+        } else {
+            BodyStage::Init
+        };
         self.vector.clear();
         self.rec.reset();
     }
